@@ -14,6 +14,7 @@ import OpenFGAVerif.Proofs.StoreHist
 import OpenFGAVerif.Proofs.StoreKeys
 import OpenFGAVerif.Gen.StoreWrite
 import OpenFGAVerif.Gen.StoreKeys
+import OpenFGAVerif.Props.Misc3
 
 set_option linter.unusedSimpArgs false
 
